@@ -96,6 +96,11 @@ def judge(chk, sc, o):
         chk.violation('ignored_interrupt_completes', case, {'raised': last.get('exc'), 'injected': o['injected']},
                       'a SIGINT the caller ignores has no effect: the call completes', input_class='sigint_ignored_yet_raised@' + o['injected'].get('site', '?'))
     elif last.get('outcome') == 'raise':
+        left = [r for r in (last.get('alive_after') or []) if str(r).startswith('Worker-')]
+        # (workers a keep_alive pool keeps for its next call are not what this is about: they are there after every call)
+        if (last.get('exc') or {}).get('type') == 'KeyboardInterrupt' and left and not sc['pool'].get('keep_alive'):
+            chk.violation('interrupt_propagates_after_workers_are_shut_down', case, {'workers_alive_when_the_interrupt_reached_the_caller': left, 'injected': o['injected']},
+                          'KeyboardInterrupt propagates to the caller after all workers have been shut down', input_class='sigint_early@' + o['injected'].get('site', '?'))
         if (last.get('exc') or {}).get('type') != 'KeyboardInterrupt':
             chk.violation('keyboard_interrupt_or_completion', case, {'raised': last.get('exc'), 'injected': o['injected']},
                           'KeyboardInterrupt (or correct completion), nothing else', input_class='sigint_third_outcome@' + o['injected'].get('site', '?'))
@@ -105,6 +110,12 @@ def judge(chk, sc, o):
         for p, c, d in vs:
             if p in ('C01', 'C02'):
                 chk.violation('completion_is_correct', case, {'clause': c, 'detail': d, 'injected': o['injected']}, 'a call that completes returns fully correct results', input_class='sigint_wrong_result')
+    lop = sc['ops'][-1]
+    over = last.get('outcome') in ('ok', 'raise') and not (lop.get('consume', 'all') != 'all' and lop.get('abandon') != 'close')
+    if over and not sc['pool'].get('keep_alive') and lop['op'] in oracles.MAPS and (last.get('alive_after') or []):
+        # the call is over (returned, raised, or its generator was closed): what it started is gone — not only once the pool is left
+        chk.violation('no_leak_after_interrupt', case, {'alive_when_the_call_was_over': last.get('alive_after'), 'injected': o['injected']},
+                      'no worker or helper thread left once the call is over', input_class='sigint_leak_after_call@' + o['injected'].get('site', '?'))
     if o.get('alive_at_exit') or o.get('procs_alive'):
         chk.violation('no_leak_after_interrupt', case, {'alive': o.get('alive_at_exit'), 'procs': o.get('procs_alive'), 'injected': o['injected']},
                       'no worker or helper thread left', input_class='sigint_leak@' + o['injected'].get('site', '?'))
